@@ -228,6 +228,7 @@ class Contract:
         split_limit=6,
         replay=None,
         yield_range=None,
+        time_budget=None,
     ):
         self.id = cid
         self.target = target
@@ -256,6 +257,7 @@ class Contract:
         self.split_limit = split_limit
         self.replay = replay
         self.yield_range = yield_range
+        self.time_budget = time_budget
 
 
 class Lemma:
